@@ -36,6 +36,7 @@ class LostAnchor(Exception):
     pass
 
 
+KEYWORDS = {'self', 'Self', 'let', 'mut', 'ref', 'fn', 'if', 'else', 'match', 'while', 'for', 'loop', 'return', 'break', 'continue', 'true', 'false', 'as', 'in', 'impl', 'pub', 'use', 'mod', 'struct', 'enum', 'trait', 'type', 'where', 'const', 'static', 'move', 'dyn', 'crate', 'super', 'unsafe'}
 DROP_ATTRS = ('inline', 'doc', 'allow', 'must_use', 'cold', 'deprecated')
 LOOP_CLAUSE_KW = {'invariant', 'invariant_except_break', 'ensures', 'decreases'}
 
@@ -598,6 +599,28 @@ def merge(tmpl_toks, src_exec):
                 # written for: it is dropped (dropping ghost code can only make an obligation harder to prove)
                 pos = stop
     out.extend(tmpl_toks[pos:])
+    # a local (or parameter) renamed consistently: the ghost code that mentions it follows the new name. Only when
+    # the old name is gone from the executable text, the new one did not occur in the template, and every changed
+    # occurrence maps the same way - otherwise nothing is renamed and the verifier decides (or rejects) as is.
+    ren = {}
+    bad = set()
+    for tag, i1, i2, j1, j2 in sm.get_opcodes():
+        if tag == 'replace' and i2 - i1 == j2 - j1:
+            for k in range(i2 - i1):
+                x, y = a[i1 + k], b[j1 + k]
+                if x != y:
+                    if re.match(r'^[A-Za-z_][A-Za-z0-9_]*$', x) and re.match(r'^[A-Za-z_][A-Za-z0-9_]*$', y) and tmpl_toks[exec_idx[i1 + k]].kind == 'ident':
+                        if ren.get(x, y) != y:
+                            bad.add(x)
+                        ren[x] = y
+                    else:
+                        bad.add(x)
+    sa, sb = set(a), set(b)
+    ren = {x: y for x, y in ren.items() if x not in bad and x not in sb and y not in sa and x not in KEYWORDS and y not in KEYWORDS}
+    if ren:
+        for t in out:
+            if getattr(t, 'ghost', False) and t.kind == 'ident' and t.text in ren:
+                t.text = ren[t.text]
     return out
 
 
